@@ -112,7 +112,20 @@ def check_c16(rep):
     selector_through_store(rep)
     rule = rep.coverage["rule"]
     lock_property(rep)
-    rep.coverage["rule"] = rule + " || " + rep.coverage["rule"]
+    # one SelectorSubscriber object shared by two stores (two reducer threads call it): engine F
+    import monitors
+    rng2 = rng_for(rep, "sharedsel")
+    g = Gen(rng2, policies=["block"], caps=[2, 16], directs=(0, 1), reducers=(1, 1), keep=0.0,
+            ops={"d": 12, "gs": 1}, max_ops=6, mws=(0, 0), max_threads=2)
+    pairs = []
+    for _ in range(1200 if rep.tier == "thorough" else 80):
+        a, b = g.scenario(), g.scenario()
+        a += "\nsharedsel 95 %d %d" % (rng2.choice([1, 2, 3]), rng2.choice([200, 1000, 3000]))
+        pairs.append((a, b))
+    run_free2(rep, pairs, "shared_selector", monitors.mon_c16)
+    rep.coverage["rule"] = rule + " || " + rep.coverage["rule"] + (
+        " || engine F: %d pairs of stores sharing one SelectorSubscriber object (slow callback), "
+        "deliveries judged by the dedup clause" % len(pairs))
 
 
 def selector_through_store(rep):
@@ -1016,6 +1029,9 @@ def check_c19(rep):
             b += "\nname 7"
         elif i % 3 == 1:
             b += "\nname 8"
+        if i % 4 == 1:
+            # one SelectorSubscriber object registered with both stores, with a slow callback
+            a += "\nsharedsel 95 %d %d" % (rng.choice([1, 2, 3]), rng.choice([0, 200, 1000]))
         pairs.append((a, b))
     rep.coverage["programs"] = len(pairs)
     run_free2(rep, pairs, "two_stores", monitors.mon_c19)
